@@ -85,11 +85,18 @@ def run_mutant(m, baseline_keys, verbose=False):
         new = {k: v for k, v in keys.items() if k not in baseline_keys}
         res['fired'] = sorted(new)
         exp = m.get('expect')
-        hit = [k for k in new if exp in k] if exp else list(new)
-        res['hit'] = hit
-        res['ok'] = bool(hit)
-        if not hit:
-            res['error'] = 'expected a new violation matching %r, got %s' % (exp, sorted(new))
+        if m.get('benign'):
+            # behaviour-preserving variant: no rule may change its verdict
+            res['hit'] = []
+            res['ok'] = not new
+            if new:
+                res['error'] = 'FALSE ALARM on a behaviour-preserving variant: %s' % sorted(new)
+        else:
+            hit = [k for k in new if exp in k] if exp else list(new)
+            res['hit'] = hit
+            res['ok'] = bool(hit)
+            if not hit:
+                res['error'] = 'expected a new violation matching %r, got %s' % (exp, sorted(new))
         if verbose:
             for k in sorted(new):
                 print('    fired: %s — %s' % (k, new[k]['detail'][:200]))
@@ -113,9 +120,10 @@ def run_for_property(prop, verbose=False):
         r = run_mutant(m, set(base), verbose)
         results.append(r)
         if verbose:
-            print('  %-50s %s %s' % (m['name'], 'caught' if r['ok'] else 'MISSED', r.get('error', '')))
+            print('  %-50s %s %s' % (m['name'], ('silent (benign)' if m.get('benign') else 'caught') if r['ok'] else ('FALSE-ALARM' if m.get('benign') else 'MISSED'), r.get('error', '')))
     failures = [r['name'] + ': ' + r.get('error', '') for r in results if not r['ok']]
     return dict(ok=not failures, mutants=len(results), caught=sum(1 for r in results if r['ok']), failures=failures,
+                benign_variants=sum(1 for m in muts if m.get('benign')),
                 results=[{k: r.get(k) for k in ('name', 'ok', 'hit', 'wall_s')} for r in results])
 
 
